@@ -111,6 +111,8 @@ func TestC10Standin(t *testing.T) {
 		tags := map[string]bool{}
 		var ops []string
 		var views []*c10View
+		nSmall, nExt := 0, 0
+		known := map[uint64]string{} // every stream a fresh view has shown so far: id -> client endpoint
 		do := func(desc string, f func() error) {
 			ops = append(ops, desc)
 			if err := f(); err != nil {
@@ -118,7 +120,7 @@ func TestC10Standin(t *testing.T) {
 			}
 		}
 		for step := 0; step < histLen; step++ {
-			op := rng.Intn(9)
+			op := rng.Intn(12)
 			if nStreams == 0 && step == 0 {
 				op = 7 // a view of the empty service
 			} else if nStreams == 0 && (op == 0 || op == 2 || op == 3) {
@@ -161,6 +163,36 @@ func TestC10Standin(t *testing.T) {
 					importSomePackets(t, mgr, t1.Add(time.Duration(nStreams)*time.Hour), "pcapProcessed")
 					nStreams += 4
 				}
+			case 11:
+				// more data for one of the small conversations, alone in its capture: the newest index file then
+				// holds nothing but a new version of an old stream
+				if nSmall > 0 && nExt < 6 {
+					k := rng.Intn(nSmall)
+					nExt++
+					pcaps, err := writePcaps(mgr.PcapDir, []pcapOverIPPacket{makeUDPPacket(fmt.Sprintf("9.0.%d.%d:%d", h%250, k, 1000+k), "2.3.4.5:9001", t1.Add(100*time.Hour+time.Duration(nSmall+nExt)*time.Second), "bar")})
+					if err != nil {
+						t.Fatalf("writePcaps: %v", err)
+					}
+					events, closer := mgr.Listen()
+					mgr.ImportPcaps(pcaps)
+					waitForEvent(t, events, closer, "pcapProcessed")
+					ops = append(ops, fmt.Sprintf("import more data for small conversation %d", k))
+				}
+			case 9, 10:
+				// a small import: one new conversation in a file of its own (enough of them trigger merges,
+				// which replace index files that held views still reference)
+				if nSmall < 12 {
+					pcaps, err := writePcaps(mgr.PcapDir, []pcapOverIPPacket{makeUDPPacket(fmt.Sprintf("9.0.%d.%d:%d", h%250, nSmall, 1000+nSmall), "2.3.4.5:9001", t1.Add(100*time.Hour+time.Duration(nSmall+nExt)*time.Second), "foo")})
+					if err != nil {
+						t.Fatalf("writePcaps: %v", err)
+					}
+					events, closer := mgr.Listen()
+					mgr.ImportPcaps(pcaps)
+					waitForEvent(t, events, closer, "pcapProcessed")
+					nSmall++
+					nStreams++
+					ops = append(ops, "import 1 more stream")
+				}
 			case 6:
 				if len(views) > 0 && rng.Intn(2) == 0 {
 					i := rng.Intn(len(views))
@@ -185,6 +217,33 @@ func TestC10Standin(t *testing.T) {
 					cv.print = p
 					ops = append(ops, fmt.Sprintf("open view#%d", cv.born))
 					views = append(views, cv)
+				}
+			}
+			// complete: a fresh view shows every stream an earlier fresh view showed (imports that were
+			// reported processed never make a stream disappear or change its identity)
+			{
+				fv := mgr.GetView()
+				now := map[uint64]string{}
+				ctx, cancel := context.WithTimeout(context.Background(), 20*time.Second)
+				err := fv.AllStreams(ctx, func(sc StreamContext) error {
+					st := sc.Stream()
+					now[st.ID()] = fmt.Sprintf("%s:%d", st.ClientHostIP(), st.ClientPort)
+					return nil
+				})
+				cancel()
+				fv.Release()
+				evals++
+				if err != nil {
+					fail("view-error", ops, fmt.Sprintf("fresh view: %v", err))
+				} else {
+					for id, ep := range known {
+						if got, ok := now[id]; !ok {
+							fail("stream-lost", ops, fmt.Sprintf("stream %d (client %s) was shown by an earlier view and is missing from a fresh one", id, ep))
+						} else if got != ep {
+							fail("stream-lost", ops, fmt.Sprintf("stream %d was a conversation of client %s and is now one of %s", id, ep, got))
+						}
+					}
+					known = now
 				}
 			}
 			// every live view still gives the answers it gave when it was opened
